@@ -457,6 +457,9 @@ def main(argv=None):
              len(errors), time.time() - t0))
     for o in undec:
         print('  UNDECIDED %s: %s' % (o.name, o.detail))
+    for o in obs:
+        if o.status == 'bounded':
+            print('  NOT-PROVED %s: %s' % (o.name, o.detail))
     for e in errors:
         print('  ERROR ' + e.splitlines()[0])
         if a.v:
